@@ -787,6 +787,7 @@ func famCodec(dir string, seed int64, tier string) {
 	}
 
 	apiHugeBlob(repDec)
+	apiSinkMarshalFaults(repWf)
 	apiEndedStreamsAndSinkMarshal(repEnc, r)
 	apiLongStreamReaders(repDec, r)
 	wEnc.flush()
